@@ -32,6 +32,16 @@ VG_RE = re.compile(r"^==\d+== ((?:Invalid (?:read|write|free)|Conditional jump o
 
 VG_FRAME = re.compile(r"^==\d+==    (?:at|by) 0x[0-9A-Fa-f]+: (.*)$")
 
+_POM = None
+def pomerol_files():
+    global _POM
+    if _POM is None:
+        _POM = set(); src = os.environ.get("POMEROL_SRC", "/repo")
+        for d in ("include/pomerol", "include/mpi_dispatcher", "src/pomerol", "src/mpi_dispatcher", "include"):
+            try: _POM |= set(os.listdir(os.path.join(src, d)))
+            except OSError: pass
+    return _POM
+
 def parse_log(path):
     """sanitizer reports attributed to the preceding @@CASE marker; returns (reports, last_case)"""
     reports = []; last = None; vg_open = False
@@ -45,7 +55,8 @@ def parse_log(path):
                     reports.append((last, "memcheck: " + VG_RE.match(line).group(1).strip()[:200])); vg_open = True
                 elif vg_open and VG_FRAME.match(line):
                     fr = VG_FRAME.match(line).group(1)
-                    if "Pomerol::" in fr: reports[-1] = (reports[-1][0], reports[-1][1] + " in " + fr[:160]); vg_open = False
+                    m = re.search(r"\(([A-Za-z0-9_]+\.(?:h|hpp|cpp)):(\d+)\)", fr)
+                    if m and m.group(1) in pomerol_files(): reports[-1] = (reports[-1][0], reports[-1][1] + " at /repo/" + m.group(1) + ":" + m.group(2)); vg_open = False
                 elif vg_open and re.match(r"^==\d+== *$", line): vg_open = False
     except FileNotFoundError:
         pass
@@ -191,7 +202,7 @@ def main():
     if plan.get("sanitizer_is_violation"):
         for (variant, case, line) in san_reports:
             m = re.search(r"(AddressSanitizer: [a-z\-]+|runtime error: [^\n]{0,80}|memcheck: [^\n]{0,60})", line); kind = m.group(1) if m else "sanitizer report"
-            site = re.search(r"(/repo/[^ :]+:\d+| in Pomerol::[^(]+)", line)
+            site = re.search(r"(/repo/[^ :]+:\d+)", line)
             key = "C17:%s:%s" % (kind, site.group(1) if site else "?")
             e = viols.setdefault(key, dict(key=key, what=line, case=case or "?", count=0, variant=variant, check=(case or "?").split(" ")[0]))
             e["count"] += 1
